@@ -18,7 +18,11 @@
       harness' atom identification (universe.Registry.atom) identify exactly the same pairs of generated values, so
       an injective `enc` with a left inverse `dec` exists on what is generated;
   (d) the stated laws beyond RuntimeLaws, sampled on the interpreter / implementation: FoldLaws, LoadLaws,
-      Utf8Total, the guard enum_value_ok (which members are inside, which outside).
+      Utf8Total, the guard enum_value_ok (which members are inside, which outside);
+  (e) `obligations(run, groups, tag)`: stream `leaf-tables[tag]` -- every scalar leaf call the core mirror recorded on
+      this run (the leaf_u / leaf_m / none_u tables of the runtime on which the calling property's core correspondence
+      evaluates Core.unm / Core.mar) is re-evaluated on the scalar model: the runtime of this run IS the bridged
+      runtime of Model/LeafBridge.v on the covered leaves (strs that are field names, i.e. PKey, included).
 
 The value generators and the `val` encoder are C04's (imported, never edited)."""
 from __future__ import annotations
@@ -189,12 +193,12 @@ def describable(x) -> bool:
     return not isinstance(x, bool)
 
 
-def eval_shards(run, prefix, fns, coq_cases):
+def eval_shards(run, prefix, fns, coq_cases, first="(L"):
     """mismatch indexes of each function of `fns` over the cases (<= 400 per file)"""
     files, spans = {}, []
     for k in range(0, len(coq_cases), 400):
         chunk = coq_cases[k:k + 400]
-        body = HDR + "Definition cases := \n " + coq_list(chunk).replace("; (L", ";\n  (L") + ".\n"
+        body = HDR + "Definition cases := \n " + coq_list(chunk).replace("; " + first, ";\n  " + first) + ".\n"
         for fn in fns:
             body += f"Eval vm_compute in mismatches {fn} cases.\n"
         name = f"cases_leaf_{prefix}_{k // 400}.v"
@@ -417,16 +421,208 @@ def sample_laws(run):
     run.oblige("leafbridge:FoldLaws / LoadLaws / Utf8Total sampled against the interpreter and serdes.load", not bad, "; ".join(bad[:3]))
 
 
-def obligations(run):
-    run.check_props("Props/LeafBridge.v", THEOREMS)
-    src = open(os.path.join(lib.THEORIES, "Props", "LeafBridge.v")).read()
-    missing = [e for e in EXAMPLES if not re.search(r"Example\s+%s\b" % e, src) or f"Print Assumptions {e}." not in src]
-    run.oblige("leafbridge:non-vacuity Examples (coding law, laws on the toy runtime, the C01 instance) stated and under "
-               "Print Assumptions", not missing, "missing: " + ", ".join(missing))
-    corr_marshallers(run)
-    corr_round(run)
-    sample_coding(run)
-    sample_laws(run)
+# ----------------------------------------------------------------------------------
+# (e) the leaf tables of a core-model run ARE the bridged runtime
+# ----------------------------------------------------------------------------------
+
+def kind_of_class(t):
+    """the leaf kind of the scalar model for a leaf class of the core harness (exact classes; enums and paths by base)"""
+    if not isinstance(t, type) or t is bool:
+        return None
+    if issubclass(t, enum.Enum):
+        return "LEnum"
+    exact = {int: "LInt", float: "LFloat", str: "LStr", bytes: "LBytes", decimal.Decimal: "LDec", fractions.Fraction: "LFrac",
+             uuid.UUID: "LUuid", D.date: "LDate", D.datetime: "LDateTime", D.time: "LTime", TD: "LTimeDelta"}
+    if t in exact:
+        return exact[t]
+    if issubclass(t, pathlib.PurePath):
+        return "LPath"
+    return None
+
+
+def in_val(x) -> bool:
+    """x is a value of the scalar model's universe (Temporal.val, aware temporals with whole-minute offsets)"""
+    if x is None or isinstance(x, enum.Enum):
+        return True
+    if isinstance(x, bool):
+        return False
+    if isinstance(x, (D.datetime, D.time)):
+        o = x.utcoffset()
+        return o is not None and not o.microseconds and o.seconds % 60 == 0
+    return type(x) in (int, float, str, bytes, bytearray, memoryview, decimal.Decimal, fractions.Fraction, uuid.UUID,
+                       D.date, TD) or isinstance(x, pathlib.PurePath)
+
+
+_ATOM = re.compile(r"^\(PAtom (\d+)%nat\)$")
+_KEY = re.compile(r"^\(PKey (\d+)%nat\)$")
+_OK = re.compile(r"^\(Ok (.*)\)$", re.S)
+
+
+def _obj_of(reg, names, term):
+    """the Python object a scalar pv term of this registry stands for: (True, obj) | (False, None)"""
+    m = _ATOM.match(term)
+    if m:
+        return True, reg.atom_objs[int(m.group(1))]
+    m = _KEY.match(term)
+    if m and int(m.group(1)) in names:
+        return True, names[int(m.group(1))]
+    return False, None
+
+
+def subclass_case(kind, x) -> bool:
+    """inputs whose treatment hinges on a subclass relation Temporal.val has no constructor for: a member of a
+    str / int / float mixin enum IS a str / int / float; True IS an int (UUIDUnmarshaller: UUID(int=True))"""
+    if isinstance(x, enum.Enum) and kind != "LEnum" and isinstance(x, (str, int, float, bytes)):
+        return True
+    if kind == "LUuid":
+        try:
+            return isinstance(c04.py_load(x), bool)
+        except Exception:
+            return False
+    return False
+
+
+def enum_table(kind, T, x) -> str:
+    """E(v) for the values EnumUnmarshaller may look up on input x: the decoded input and the loaded one"""
+    if kind != "LEnum":
+        return "(@nil (val * res tok))"
+    cands = []
+    if isinstance(x, (str, bytes, bytearray, memoryview)):
+        _, s = c04.text_of(x)
+        if s is not None:
+            cands.append(s)
+    else:
+        cands.append(x)
+    try:
+        cands.append(c04.py_load(x))
+    except Exception:
+        pass
+    rows, seen = [], set()
+    for c in cands:
+        if not in_val(c):
+            continue
+        k = c04.emit_val(c)
+        if k in seen:
+            continue
+        seen.add(k)
+        rows.append(f"({k}, {c04.emit_res(lambda c=c: T(c), lambda v: c04.cs(c04.tok(v)), 'tok')})")
+    return coq_list(rows, "(val * res tok)") if rows else "(@nil (val * res tok))"
+
+
+def leaf_tables_tie(run, groups, tag):
+    """every scalar leaf call the core mirror recorded on this run (leaf_u / leaf_m / none_u tables of the runtime the
+    core correspondence evaluates Core.unm / Core.mar on), re-evaluated on the scalar model"""
+    ucases, mcases, ncases = [], [], []
+    ucoq, mcoq, ncoq = [], [], []
+    skipped = {"leaf outside the scalar model (bool, Any, Literal, bare containers, exotic)": 0,
+               "input is not a scalar of Temporal.val (container, bool, naive temporal, other object)": 0,
+               "result is not a scalar of Temporal.val": 0,
+               "bool / mixin subclass relations Temporal.val does not have (str-mixin enum member given to str, text that loads "
+               "to a bool given to UUID)": 0}
+
+    def obs_term(reg, names, res):
+        m = _OK.match(res)
+        if not m:
+            return "(@Raise val EValue)", None
+        ok, obj = _obj_of(reg, names, m.group(1))
+        if not ok or not in_val(obj):
+            return None, None
+        return f"(Ok {c04.emit_val(obj)})", obj
+    for g in groups:
+        reg = g.reg
+        names = {i: n for n, i in reg.fields.items()}
+        for table, side in ((g.mirror.t.lu, "u"), (g.mirror.t.lm, "m")):
+            for (s, key), res in table.items():
+                T = reg.leaf_py.get(s)
+                kind = kind_of_class(T)
+                if kind is None:
+                    skipped["leaf outside the scalar model (bool, Any, Literal, bare containers, exotic)"] += 1
+                    continue
+                ok, x = _obj_of(reg, names, key)
+                if not ok or not in_val(x):
+                    skipped["input is not a scalar of Temporal.val (container, bool, naive temporal, other object)"] += 1
+                    continue
+                o, robj = obs_term(reg, names, res)
+                if o is None:
+                    skipped["result is not a scalar of Temporal.val"] += 1
+                    continue
+                if subclass_case(kind, x):
+                    skipped["bool / mixin subclass relations Temporal.val does not have (str-mixin enum member given to str, text "
+                            "that loads to a bool given to UUID)"] += 1
+                    continue
+                desc = {"layer": "leaf-tables", "side": side, "kind": kind, "type": getattr(T, "__name__", str(T)),
+                        "input": repr(x)[:120], "observed": res[:80] if robj is None else repr(robj)[:120]}
+                try:
+                    if side == "u":
+                        a = c04.answers_for(KINDS[kind][0], T, x)
+                        ucases.append(desc)
+                        ucoq.append(f"({KINDS[kind][0]}, {a}, {enum_table(kind, T, x)}, {c04.emit_val(x)}, {o})")
+                    else:
+                        a, ev = marshal_answers(x)
+                        mcases.append(desc)
+                        mcoq.append(f"({kind}, {a}, {ev}, {c04.emit_val(x)}, {o})")
+                except Exception as e:
+                    run.notes.append(f"leaf-tables: skipped undescribable case {kind} {x!r}: {e!r}")
+        for key, res in g.mirror.t.nu.items():
+            ok, x = _obj_of(reg, names, key)
+            if not ok:
+                # a container: the bridged none_u raises
+                ncases.append({"layer": "leaf-tables", "side": "none", "input": key[:80], "observed": res[:80]})
+                ncoq.append(None if res.startswith("(Raise") else False)
+                continue
+            if not in_val(x):
+                skipped["input is not a scalar of Temporal.val (container, bool, naive temporal, other object)"] += 1
+                continue
+            o, _ = obs_term(reg, names, res)
+            if o is None:
+                skipped["result is not a scalar of Temporal.val"] += 1
+                continue
+            b = None
+            if isinstance(x, (bytes, bytearray, memoryview)):
+                b, s = c04.text_of(x)
+                utf8 = coq_list([f"({c04.cs(b)}, {'(Ok ' + c04.cs(s) + ')' if s is not None else '(@Raise string EValue)'})"])
+            ncases.append({"layer": "leaf-tables", "side": "none", "input": repr(x)[:120], "observed": res[:80]})
+            ncoq.append(f"({answers(a_utf8=utf8) if b is not None else answers()}, {c04.emit_val(x)}, {o})")
+    container_bad = [ncases[i] for i, c in enumerate(ncoq) if c is False]
+    keep = [i for i, c in enumerate(ncoq) if isinstance(c, str)]
+    dist = {"unmarshal_calls": len(ucases), "marshal_calls": len(mcases), "none_calls": len(ncases), "skipped": skipped}
+    by = {}
+    for c in ucases + mcases:
+        k = f"{c['side']}:{c['kind']}"
+        by[k] = by.get(k, 0) + 1
+    dist["by_side_and_kind"] = by
+    ubad, uunm = eval_shards(run, f"tblu_{tag}", ["unmarshal_case_ok", "(fun c => negb (unmarshal_unmodelled c))"], ucoq, first="(R")
+    mbad, munm = eval_shards(run, f"tblm_{tag}", ["marshal_case_ok", "(fun c => negb (marshal_unmodelled c))"], mcoq)
+    (nbad,) = eval_shards(run, f"tbln_{tag}", ["none_case_ok"], [ncoq[i] for i in keep], first="({")
+    ubad = [i for i in ubad if i not in set(uunm)]
+    mbad = [i for i in mbad if i not in set(munm)]
+    dist["outside the scalar model (model answers Unmodelled: time-only text to date, int(bytes), ...)"] = len(uunm) + len(munm)
+    bad = [ucases[i] for i in ubad] + [mcases[i] for i in mbad] + [ncases[keep[i]] for i in nbad] + container_bad
+    total = len(ucases) + len(mcases) + len(ncases)
+    run.record_corr(f"leaf-tables[{tag}](the scalar leaf tables of this core run = the bridged runtime of Model/LeafBridge.v)",
+                    total, bad, total - len(uunm) - len(munm), dist)
+    run.extra_cov.setdefault("leafbridge", {}).setdefault("leaf_tables", {})[tag] = {
+        "calls_compared": total, "outside_model": len(uunm) + len(munm), "skipped": skipped}
+    return bad
+
+
+def obligations(run, groups=None, tag="core", props=True, streams=True):
+    """props: re-check Props/LeafBridge.v on this run (about 20 s); streams: the generated streams leaf-marshallers /
+    leaf-round / coding / laws (about 15 s quick); groups: the coremodel.Group objects of the calling property's own
+    core correspondence -> the leaf-tables tie on exactly the runtime tables that correspondence used."""
+    if props:
+        run.check_props("Props/LeafBridge.v", THEOREMS)
+        src = open(os.path.join(lib.THEORIES, "Props", "LeafBridge.v")).read()
+        missing = [e for e in EXAMPLES if not re.search(r"Example\s+%s\b" % e, src) or f"Print Assumptions {e}." not in src]
+        run.oblige("leafbridge:non-vacuity Examples (coding law, laws on the toy runtime, the C01 instance) stated and under "
+                   "Print Assumptions", not missing, "missing: " + ", ".join(missing))
+    if streams:
+        corr_marshallers(run)
+        corr_round(run)
+        sample_coding(run)
+        sample_laws(run)
+    if groups:
+        leaf_tables_tie(run, groups, tag)
     run.assumptions += [
         "leaf bridge: the leaf hypotheses of the core theorems (RoundLaws, PassLaws, IdemLaws, NoneLaws, LeafLaws, "
         "MarshalLaws) are theorems of the scalar model for the scalar kinds int float str bytes Decimal Fraction UUID "
